@@ -26,6 +26,22 @@ def check_first_def(ctx: Ctx, rule: str, m: S.SchemeModel):
         )
 
 
+def check_definitions_declared(ctx: Ctx, rule: str, m: S.SchemeModel):
+    """every definition a builder prints (the assignment itself, the linearisation symbol) asks for the variable prefix:
+    in C that prefix is the declaration (`const double x = ...`); without it the generated function assigns to an
+    undeclared identifier"""
+    f = m.func
+    if not getattr(m, "from_av", False):
+        ctx.undecided(rule, f.key("definitions-declared"), f"{f.name}: the path table was not read from the builder's value; the keyword arguments of the printer calls are not judged", f.where())
+        return
+    bad = []
+    for r in m.rows:
+        for lhs, _rhs, info in r.emissions:
+            if isinstance(info, dict) and not info.get("prefixed", True):
+                bad.append((r.raw_pred, te.show(lhs)))
+    ctx.check(not bad, rule, f.key("definitions-declared"), "definitions are printed with use_variable_prefix=True", f"{f.name} prints the definition of {bad[0][1] if bad else ''} (path [{bad[0][0] if bad else ''}]) without use_variable_prefix=True: the C function assigns to an identifier that was never declared (the translation unit does not compile), while the Python output is unchanged", f.where())
+
+
 def check_single_exit(ctx: Ctx, rule: str, m: S.SchemeModel):
     """The builder has one exit (the list of equations after the loop) and does not modify what it was given."""
     from .common import param_mutations
@@ -307,6 +323,9 @@ def run(ctx: Ctx):
 
     # ---- R05.e / R05.f slots and argument order ----------------------------------------------------
     ctx.rule("R05.e", "the step for state X is stored at state_index(X) (STATE slot family)", floor=6)
+    from .c04 import check_state_order_accessors
+
+    check_state_order_accessors(ctx, "R05.e")
     from .c04 import argument_orders, slot_families
 
     slot_families(ctx, "R05.e", only_family="STATE", floor=False, producers=lambda p: p.func.qualname in ("CodeGenerator.initial_state_values", "CodeGenerator._state_assignments", euler_name or "explicit_euler"))
